@@ -58,6 +58,19 @@ def rvOf (L : List LFn) (f : String) : Bool :=
 
 def callsOk (L : List LFn) : Bool := progOk (rvOf L) L
 
+/-! the same condition at the source of `lir::lower`: `C01Lir.lowerProg` gives a call a `to` only when
+  `retInfoOf P` says the callee returns a value (`Lemmas/C01CgCalls.lowerProg_progOk`) -/
+
+/-- what `retInfoOf P` says of `f`: it returns a value -/
+def rvM (P : List MFn) (f : String) : Bool :=
+  match retInfoOf P f with
+  | some (_, true) => true
+  | _ => false
+
+/-- every function of `P` is the one its name finds, as far as `retVal` goes -/
+def namesOk (P : List MFn) : Bool :=
+  P.all (fun fn => !(rvM P fn.name) || fn.retVal)
+
 section
 variable [FloatOps]
 
